@@ -4,6 +4,7 @@ namespace SdnsVerif.Gen.C12
 def default_caps : List Nat := [128, 32, 4, 8, 32, 32, 32, 32]
 def default_maxdepth : Nat := 30
 def default_mode : String := "shadow"
+def detached_copy_keeps_policy : Bool := true
 def ede_code_dnssec : Nat := 5
 def ede_code_network : Nat := 0
 def exchange_debit_conditions : List String := ["middleware.IsBestEffortRecursionWork(ctx)", "rs.work != nil"]
@@ -17,6 +18,7 @@ def net_call_funcs : List String := ["dialUDP", "exchange"]
 def shape_cacheable_reads_ledger_at_decision : Bool := true
 def shape_cached_descent_spends_depth : Bool := true
 def shape_chase_checks_deadline : Bool := true
+def shape_checkhosts_uses_request_context : Bool := true
 def shape_checkloop_before_ns_lookup : Bool := true
 def shape_delegation_spends_depth : Bool := true
 def shape_dialudp_only_from_exchange : Bool := true
@@ -27,6 +29,7 @@ def shape_level_up_only_when_minimized : Bool := true
 def shape_nomin_retry_only_when_minimized : Bool := true
 def shape_queryer_debit_before_dispatch : Bool := true
 def shape_queryer_depth_check_before_dispatch : Bool := true
+def shape_resolve_relabels_unconditionally : Bool := true
 def shape_resolvestate_literals_carry_work : Bool := true
 def shape_subquery_debit_before_resolve : Bool := true
 
